@@ -15,6 +15,7 @@ workers P, queue size J, loader results and durations, ticks, delays; both varia
 import Got.Lemmas.CacheOnce
 import Got.Lemmas.CacheLive
 import Got.Lemmas.CacheSharding
+import Got.Lemmas.ShardingAst
 open Got.Model.CacheCore Got.Model.Cache Got.Spec.Cache Got.Lemmas.Cache
 
 /-- status good ⇔ the future is still loading or its result is fresh -/
@@ -182,3 +183,25 @@ theorem C04_shard_in_range_count (n : Int) (hn : n ≤ 2 ^ 62) :
 
 example : Got.Model.Sharding.convertPowerOfTwo 12 = some 16 ∧
     Got.Model.Sharding.shardIndex 16 (.int (-1)) = 15 ∧ Got.Model.Sharding.shardIndex 16 (.uint8 255) = 15 := by decide
+
+/-! ### the translated source of convertPowerOfTwo
+
+`Got.Generated.AstLoom.convertPowerOfTwo` is the MiniGo term that tools/srcfacts regenerates from
+/repo/loom/sharding_option.go on every run (see Got/Model/MiniGo.lean and DESIGN.md §1.3 (a')). -/
+
+/-- the translator accepted the function (every construct of the current source is inside the MiniGo fragment) -/
+theorem C04_shard_count_translation_in_fragment : Got.Generated.AstLoom.convertPowerOfTwoNote = "ok" := by decide
+
+/-- For every 64-bit argument n ≤ 2^62, interpreting the translated source of `convertPowerOfTwo` (64-bit wrap-around
+    shift) returns the least power of two ≥ n, with any fuel ≥ 140 — the statement of `C04_shard_in_range_count` for
+    the code as translated. -/
+theorem C04_shard_count_translated_source (n : Int) (h0 : -9223372036854775808 ≤ n) (hn : n ≤ 2 ^ 62)
+    (fuel : Nat) (hf : 140 ≤ fuel) :
+    ∃ e, e ≤ 62 ∧
+      Got.Generated.AstLoom.convertPowerOfTwo.run (fun _ _ => false) fuel [n] = some (.ret ((2 ^ e : Nat) : Int) []) ∧
+      n ≤ ((2 ^ e : Nat) : Int) ∧ (e = 0 ∨ ((2 ^ (e - 1) : Nat) : Int) < n) := by
+  obtain ⟨e, he, hm, h1, h2⟩ := C04_shard_in_range_count n hn
+  refine ⟨e, he, ?_, h1, h2⟩
+  exact Got.Lemmas.ShardingAst.convert_ast_refines n ⟨h0, by omega⟩ (2 ^ e) hm fuel hf
+
+example : Got.Generated.AstLoom.convertPowerOfTwo.run (fun _ _ => false) 140 [12] = some (.ret 16 []) := by decide
